@@ -1,6 +1,6 @@
 from runner import PropBase
 
-NLOCKS = 16
+NLOCKS = 17
 FAMS = [0, 1, 2, 3, 4]
 
 
@@ -75,11 +75,28 @@ def gen_pair_sweep(rng, i):
     return {"pool": pool, "setup": setup, "progs": [[first], [second]], "steps": steps}
 
 
+def gen_probe_sweep(rng, i):
+    """a breaker is tripped and its probe entry rejected by a later slot (the exit hook rolls the breaker back);
+    parked at its k-th lock while another thread replaces / removes / reads the breaker's rule"""
+    pool = [(1, 1, 11), (2, 1, 1), (3, 1, 11), (4, 2, 11)]
+    setup = [("L", 2, [0, 3])]
+    if i % 4 == 1:
+        # one thread: the lock profile of the whole scenario followed by a rule change
+        second = rng.pick([("R", 2, 1, [1]), ("K", 2, 1), ("C", 2)])
+        return {"pool": pool, "setup": setup, "progs": [[("E", 1), second]], "steps": []}
+    second = rng.pick([("R", 2, 1, [1]), ("R", 2, 1, [1]), ("K", 2, 1), ("C", 2), ("L", 2, [1]), ("P", 2, 2), ("E", 1), ("G", 2)])
+    k = (i // 5) % 36
+    steps = [0] * k + [1] * 40 + [0] * 40
+    return {"pool": pool, "setup": setup, "progs": [[("E", 1)], [second]], "steps": steps}
+
+
 def gen_case(rng, i):
     if i % 5 == 1:
         return gen_profile_sweep(rng, i)
     if i % 5 == 3:
         return gen_pair_sweep(rng, i)
+    if i % 5 == 4:
+        return gen_probe_sweep(rng, i)
     pool = gen_pool(rng)
     setup = [gen_op(rng, pool, entries=False) for _ in range(rng.pick([0, 1, 2, 4]))]
     if i % 3 == 0:
@@ -125,24 +142,26 @@ class C15(PropBase):
     counts = {"quick": 450, "thorough": 6000}
     rule = ("one harness process per case (the managers are global): a pool of 3-6 rules (valid and invalid, 3 resources and the "
             "empty name), 0-4 sequential set-up calls, then either one thread making 1-3 calls (its lock profile is observed: "
-            "for every lock acquisition of the managers and the node store, the lock, the mode and the set of these locks "
+            "for every lock acquisition of the managers, the node store, the listener list and the breakers' state mutexes, the lock, the mode and the set of these locks "
             "held at that moment) or 2-3 real threads making 1-3 calls each - load-all, load-for-resource, append, clear, "
             "clear-for-resource, get, get-for-resource over flow / hotspot / breaker / isolation / system managers (60% within "
             "one family) and inbound entry build+exit with an argument - under a forced interleaving of the scheduling "
             "points placed before every lock acquisition (0-40 steps: round robin, random, runs; a thread that does not come "
             "back within 150 ms counts as blocked and is left alone); a fifth of the cases sweep every kind of call on a populated "
             "manager with one thread (profile), another fifth park one call at its k-th lock while a second call of the same "
-            "family and resource runs to its end; verdict: all threads finished / all unfinished threads "
+            "family and resource runs to its end; another fifth trip a breaker (it opens at the first failed request), let its probe "
+            "entry be rejected by a later slot and park that thread at its k-th lock (k = 0..35, through the exit hook that "
+            "rolls the breaker back) while a second thread replaces, removes, appends or reads the breaker's rule; verdict: all threads finished / all unfinished threads "
             "blocked for 1.5 s (deadlock); panics per thread; afterwards every manager must answer get, accept a load and a "
             "clear, and an entry must build; non-trivial = two threads or a non-empty lock profile; distinct = distinct case text")
     assumptions = ["reader/writer locks are treated as exclusive in the lock-order theorem (sound for deadlock freedom)",
-                   "the per-breaker state mutex and the listener list lock are not part of the observed profile (see DESIGN)"]
+                   "all breakers' state mutexes are one lock (16) in the profile and the model: sound for the order between them "
+                   "and the other locks; no code path holds two of them"]
     trusted_extra = ["the cooperative scheduler of the harness with its blocked-thread detection by time-out "
                      "(harness/src/sched.rs run_blocking) and the script-placed scheduling points before lock acquisitions",
                      "verif_locks_held() (try_lock on each static) as the reader of held locks"]
     partial_note = ("deadlock freedom is proved from the lock order for the sixteen static locks of the five rule managers and the "
-                    "node store, whose acquisition contexts are observed on the implementation; the per-breaker state mutex "
-                    "and the listener lock taken inside it are outside the observed profile. Absence of panics under "
+                    "node store, the listener list and the breakers' state mutexes, whose acquisition contexts are observed on the implementation. Absence of panics under "
                     "concurrency is checked on the implementation under forced schedules (and, for sequential histories, "
                     "proved under C12); it is not a theorem for all interleavings")
 
